@@ -877,7 +877,7 @@ fn eval_config(ctx: &Ctx, g: &Group, mat: &Mat, cfg: &Config) -> Eval {
 		if j == 0 {
 			let pruned: Vec<(String, String)> = exp.pruned.iter().map(|(k, v)| (k.clone(), v.clone())).collect();
 			if !pruned.is_empty() || !exp.skipped_empty.is_empty() {
-				ev.nontrivial = Some((exp.set.iter().map(|e| EntryKey { path: rel_to(root, &e.path), applies_in: e.applies_in.as_ref().map(|p| rel_to(root, p)), applies_to: e.applies_to.clone() }).collect(), pruned.clone(), exp.skipped_empty.clone()));
+				ev.nontrivial = Some((exp.set.iter().map(|e| EntryKey { path: rel_to(&ctx.base, &rel_to(root, &e.path)), applies_in: e.applies_in.as_ref().map(|p| rel_to(root, p)), applies_to: e.applies_to.clone() }).collect(), pruned.clone(), exp.skipped_empty.clone()));
 			}
 			ev.sample = json!({
 				"config": cfg.json(g),
